@@ -239,10 +239,11 @@ def coq_key(k):
     return clist(map(cstr, k))
 
 
-def coq_espec(feats):
+def coq_espec(feats, keyname=None):
+    ck = (lambda k: keyname[tuple(k)]) if keyname else coq_key
     return clist("(mkES %s %s %s %s)" % (
         cstr(f["name"]), cstr(f["config"]), cstr(f["prefix"]),
-        clist(cpair(cstr(c), clist(map(coq_key, ks))) for c, ks in f["timed"])) for f in feats)
+        clist(cpair(cstr(c), clist(map(ck, ks))) for c, ks in f["timed"])) for f in feats)
 
 
 def all_keys(feats):
@@ -310,6 +311,23 @@ def raw_spec_from_yaml(path):
 IMPORTS = ["TV.Model.Fusion", "TV.Model.Show", "TV.Model.Time"]
 
 
+_LIT = re.compile(r'"(?:[^"]|"")*"%string')
+
+
+def share_strings(expr):
+    """Bind every distinct string literal once (`let sx3 := "Mem"%string in ...`): elaborating string
+    literals dominates the kernel-side cost, and the dump repeats the same few names many times."""
+    table = {}
+
+    def sub(m):
+        lit = m.group(0)
+        if lit not in table:
+            table[lit] = "sx%d" % len(table)
+        return table[lit]
+    body = _LIT.sub(sub, expr)
+    return "(" + "".join("let %s := %s in " % (v, lit) for lit, v in table.items()) + body + ")"
+
+
 class Case:
     def __init__(self, kind, yaml, S=None, path=None):
         self.kind, self.yaml, self.S, self.path = kind, yaml, S, path
@@ -333,8 +351,13 @@ def build_case(c, rng, n_dominant):
         c.arch, c.feats = raw_spec_from_yaml(c.path)
         blocks = clist(clist(map(cstr, b)) for b in c.blocks)
         c.envs = []
-    c.expr = "(c14_report %s %s %s %s %s)" % (coq_arch(c.arch), blocks, coq_espec(c.feats), clist(c.dump),
-                                             clist(coq_env(e) for e in c.envs))
+    # the count keys are bound once (K0, K1, ...) and shared by the specification and the environments
+    keys = [tuple(k) for k in all_keys(c.feats)]
+    keyname = {k: "K%d" % i for i, k in enumerate(keys)}
+    lets = "".join("let K%d := %s in " % (i, coq_key(list(k))) for i, k in enumerate(keys))
+    lets += "let KS : list skey := %s in " % clist(keyname[k] for k in keys)
+    envs = clist("(combine KS %s)" % clist(cz(e[k]) for k in keys) for e in c.envs)
+    c.expr = share_strings("(%sc14_report %s %s %s %s %s)" % (lets, coq_arch(c.arch), blocks, coq_espec(c.feats, keyname), clist(c.dump), envs))
 
 
 def parse_report(r):
@@ -494,12 +517,13 @@ def check_level_names(ctx, rng, stats):
         except Exception:
             code.append("-")
         exprs.append("(match parse_level %s with Some (n, k) => (n ++ \",\" ++ show_Z k)%%string | None => \"-\" end)" % cstr_any(nm))
-    res = vlib.coq_eval_lines("c14lv", IMPORTS, "", exprs)
-    for nm, a, b in zip(names, code, res):
-        stats["level_names"] += 1
-        if a != b:
-            ctx.violation({"kind": "level-name"}, "level name %r: Architecture gives (name, instances) = %s, the model %s" % (nm, a, b),
-                          {"level_name": nm, "code": a, "model": b})
+    def judge_names(res):
+        for nm, a, b in zip(names, code, res):
+            stats["level_names"] += 1
+            if a != b:
+                ctx.violation({"kind": "level-name"}, "level name %r: Architecture gives (name, instances) = %s, the model %s" % (nm, a, b),
+                              {"level_name": nm, "code": a, "model": b})
+    return exprs, judge_names
 
 
 def population(ctx):
@@ -547,7 +571,7 @@ def corner_case(which):
 def run(ctx):
     rng = ctx.rng
     stats = {"literal_model_matches": 0, "divisors_checked": 0, "divisor_not_literal": 0, "executions": 0, "level_names": 0}
-    check_level_names(ctx, rng, stats)
+    lv_exprs, judge_names = check_level_names(ctx, rng, stats)
     cases = population(ctx)
     rejected = {}
     good = []
@@ -563,7 +587,10 @@ def run(ctx):
             rejected[c.err] = rejected.get(c.err, 0) + 1
             continue
         good.append(c)
-    res = vlib.coq_eval_lines("c14", IMPORTS, "", [c.expr for c in good], shard=40)
+    exprs = [c.expr for c in good] + lv_exprs
+    res = vlib.coq_eval_lines("c14", IMPORTS, "", exprs, shard=max(10, -(-len(exprs) // 12)), big_stack=False)
+    judge_names(res[len(good):])
+    res = res[:len(good)]
     n_bad = 0
     dist = {"einsums": {}, "configs": {}, "blocks": {}, "timed_per_einsum": {}, "classes": {}, "shared_name_conflicts": 0,
             "multi_einsum_blocks": 0, "single_component_blocks": 0, "empty_blocks": 0, "kinds": {}}
@@ -664,7 +691,7 @@ def replay(ctx, rep):
     if c.err:
         print("the compiler now rejects the specification:", c.err)
         return 0
-    res = vlib.coq_eval_lines("c14r", IMPORTS, "", [c.expr])
+    res = vlib.coq_eval_lines("c14r", IMPORTS, "", [c.expr], big_stack=False)
     report = parse_report(res[0])
     sub = _Collect()
     stats = {"literal_model_matches": 0, "divisors_checked": 0, "divisor_not_literal": 0, "executions": 0, "level_names": 0}
